@@ -18,13 +18,13 @@ def tree_stage(ctx):
                             coverage=True, timeout=ctx.pick(600, 1800))
         ctx.check_coverage(r, ["Extend", "ExtendCancelled", "Finalize", "Dispose", "Dup", "CancelLate", "GetLast", "GetByHeight",
                                "GetBlock", "WaitFor"], allow_zero=() if misuse == "TRUE" else ("DisposeAgain",))
-        d = 3
+        d = ctx.pick(2, 3)
         bs = ctx.behaviours("chain", "Gen_BlockTree", "Gen_BlockTree.cfg",
                             constants=dict(MaxHandles=4, MaxOps=d, Depth=d, Misuse=misuse), timeout=900)
-        wl = ctx.pick(12, 16)
+        wl = ctx.pick(10, 16)
         walks = ctx.behaviours("chain", "Gen_BlockTree", "Gen_BlockTree.cfg",
                                constants=dict(MaxHandles=ctx.pick(5, 6), MaxOps=wl, Depth=wl, Misuse=misuse),
-                               simulate="num=%d" % ctx.pick(400, 4000), depth=wl + 2, seed=ctx.seed, timeout=900)
+                               simulate="num=%d" % ctx.pick(250, 3000), depth=wl + 2, seed=ctx.seed, timeout=900)
         ctx.sample([dict(op=s["op"], res=s.get("res"), p=s.get("p"), v=s.get("v"), h=s.get("h")) for s in walks[0]][:8])
         bs = bs + walks
     inp = ctx.path("in", "tree.ndjson")
@@ -81,14 +81,25 @@ def run(ctx):
     # 3. real block manager: Propose -> mutate/re-encode -> Import -> Finalize
     recs = ctx.go_replay("chainimport", "TestReplay", inp, shards=1 if ctx.replay else 4, timeout=1500)
     ctx.absorb(recs)
+    # 4. the candidate tree of the same block manager (BlockTree.tla); VERIF_C07_TREE=off skips it, =only runs it alone
+    ntree = 0
+    if tree != "off" and not ctx.replay:
+        ntree = tree_stage(ctx)
     return ctx.finish(
         rule="a case = one history on a real block manager: %d single imports (every tip kind x every vote-timestamp multiset x "
              "every block timestamp without structural deviation, and every combination of height/parent/version deviations "
              "with unanimous votes) + %d random histories of imports and finalizations from genesis; distinct by "
-             "(validators, step sequence); verdict predicted by TLC" % counts,
+             "(validators, step sequence); verdict predicted by TLC; plus %d behaviours of the candidate tree (BlockTree.tla: "
+             "Propose/Import/Finalize/Dispose/Dup/Cancel/readers/waiters on a tree of depth <= 2 above the last finalized block, "
+             "branching 2; all of depth 2/3 + random walks), after each call the manager's node map and reference counts are "
+             "compared with the prediction" % (counts + (ntree,)),
         assumptions=["abstract time unit = 1 microsecond (the unit of block timestamps); vote lists contain valid precommits of distinct validators only (forged "
                      "lists are C05)",
                      "test service manager of goloop's test package (no transactions in the blocks); block version 2 only; "
                      "deviating versions are 1 and 3",
-                     "children of the last finalized block only (imports on top of non-finalized candidates are not modelled)",
+                     "ChainImport.tla imports children of the last finalized block only; BlockTree.tla covers candidates on "
+                     "candidates (the manager supports two levels: voters are taken from the finalized block below the parent)",
+                     "candidate handles are disposed at most once (double Dispose is caller misuse; explored only with "
+                     "VERIF_C07_MISUSE=1); requests complete before Cancel can win in this harness, so Cancel=true is modelled "
+                     "and model-checked but not observed on the real manager",
                      "a rejected acceptable block is reported as divergence, not violation"])
